@@ -30,6 +30,7 @@ TInit == /\ run \in Runs
          /\ early = [w \in Workers |-> "none"]
          /\ pend = <<>>
          /\ len = Rec[run].N
+         /\ hook = TRUE
          /\ src = 0
          /\ pc = [w \in Workers |-> "top"]
          /\ tk = [w \in Workers |-> 0]
@@ -74,7 +75,7 @@ TBeforeSend ==
                 /\ pc' = [pc EXCEPT ![v] = IF sok[v] THEN "top" ELSE "exit", ![E.w] = "ready"]
                 /\ early' = [early EXCEPT ![v] = "adv"]
                 /\ pend' = pend
-                /\ UNCHANGED <<len, src, tk, sok, chan, out, cons, calls, aborted, srcAtDrop>>
+                /\ UNCHANGED <<hook, len, src, tk, sok, chan, out, cons, calls, aborted, srcAtDrop>>
 
 TAfterSend ==
     /\ IsEvent("AfterSend")
@@ -93,7 +94,7 @@ TAfterSend ==
           /\ early[E.w] = "none" /\ pc[E.w] = "ready" /\ closed /\ E.k
           /\ sok' = [sok EXCEPT ![E.w] = TRUE]
           /\ pc' = [pc EXCEPT ![E.w] = "sent"]
-          /\ UNCHANGED <<len, src, tk, sendNext, chan, out, cons, calls, aborted, srcAtDrop, early, pend>>
+          /\ UNCHANGED <<hook, len, src, tk, sendNext, chan, out, cons, calls, aborted, srcAtDrop, early, pend>>
        \/ \* the channel looks full only because the consumer has already taken the head
           \* but not yet logged its Recv (free-running runs): lazy Recv, then Send
           /\ early[E.w] = "none" /\ pc[E.w] = "ready" /\ ~closed /\ ~aborted /\ E.k
@@ -103,7 +104,7 @@ TAfterSend ==
           /\ chan' = Append(Tail(chan), tk[E.w])
           /\ sok' = [sok EXCEPT ![E.w] = TRUE]
           /\ pc' = [pc EXCEPT ![E.w] = "sent"]
-          /\ UNCHANGED <<len, src, tk, sendNext, cons, calls, aborted, srcAtDrop, early>>
+          /\ UNCHANGED <<hook, len, src, tk, sendNext, cons, calls, aborted, srcAtDrop, early>>
 
 TAfterAdvance ==
     /\ IsEvent("AfterAdvance")
@@ -141,7 +142,7 @@ TRecv ==
                 /\ out' = Append(out, E.x)
                 /\ early' = [early EXCEPT ![w] = "send"]
                 /\ pend' = pend
-                /\ UNCHANGED <<len, src, tk, sendNext, chan, cons, calls, aborted, srcAtDrop>>
+                /\ UNCHANGED <<hook, len, src, tk, sendNext, chan, cons, calls, aborted, srcAtDrop>>
 
 TEnd == IsEvent("End") /\ End /\ UNCHANGED <<early, pend>>
 TDrop == IsEvent("Drop") /\ Drop /\ UNCHANGED <<early, pend>>
